@@ -116,8 +116,10 @@ def golden(d, ev, env_extra=None, cwd=None, path=None, outdir=None, quiet=True):
     return hash_dir(out if os.path.isabs(out) else os.path.join(cwd or d, out))
 
 
-def do_event(d, ev, k):
-    """Execute one event in THIS process. Returns hashes for compile events, else None."""
+def do_event(d, ev, k, hist=None):
+    """Execute one event in THIS process. Returns hashes for compile events, else None.
+    The OUTPUT DIRECTORY is part of the history: every compile event of a history writes into a directory that starts as a copy of
+    the directory its predecessors wrote into (older, possibly longer files of the same names are already there)."""
     import bitproto._main as M
     from bitproto.linter import lint
     from bitproto.parser import parse
@@ -140,8 +142,17 @@ def do_event(d, ev, k):
             except ParserError:
                 return None
             raise RuntimeError("invalid schema %s was accepted" % s)
-        out = os.path.join(d, "out_%d_%d" % (os.getpid(), k))
-        os.makedirs(out, exist_ok=True)
+        hist = list(hist or [k])
+        out = os.path.join(d, "out_" + "_".join(map(str, hist)))
+        parent = os.path.join(d, "out_" + "_".join(map(str, hist[:-1]))) if len(hist) > 1 else None
+        # nearest ancestor that compiled something
+        anc = list(hist[:-1])
+        while anc and not os.path.isdir(os.path.join(d, "out_" + "_".join(map(str, anc)))):
+            anc.pop()
+        if anc:
+            shutil.copytree(os.path.join(d, "out_" + "_".join(map(str, anc))), out)
+        else:
+            os.makedirs(out, exist_ok=True)
 
         def fake_fatal(msg="", code=1):
             raise RuntimeError("fatal: %s" % msg)
@@ -152,9 +163,7 @@ def do_event(d, ev, k):
             M.main(path, lang=lang, outdir=out, disable_linter=(k % 2 == 0), enable_optimize=opt)
         finally:
             M.fatal = saved
-        h = hash_dir(out)
-        shutil.rmtree(out, ignore_errors=True)
-        return h
+        return hash_dir(out)  # the caller compares the files this event is responsible for
     finally:
         sys.stderr = old
 
@@ -167,10 +176,10 @@ def explore(d, goldens, prefix, depth, wfd):
         if pid == 0:
             rec = dict(hist=prefix + [ei], ok=True)
             try:
-                h = do_event(d, ev, len(prefix))
-                if h is not None and h != goldens[ei]:
+                h = do_event(d, ev, len(prefix), prefix + [ei])
+                if h is not None and any(h.get(f) != x for f, x in goldens[ei].items()):
                     rec["ok"] = False
-                    rec["diff"] = sorted(f for f in set(h) | set(goldens[ei]) if h.get(f) != goldens[ei].get(f))
+                    rec["diff"] = sorted(f for f in goldens[ei] if h.get(f) != goldens[ei].get(f))
             except BaseException as e:  # noqa
                 rec["ok"] = False
                 rec["error"] = "%s: %s" % (type(e).__name__, str(e)[:300])
@@ -204,10 +213,10 @@ def run_hist(unit):
             # the history starts with event `first`
             rec = dict(hist=[first], ok=True)
             try:
-                h = do_event(d, EVENTS[first], 0)
-                if h is not None and h != goldens[first]:
+                h = do_event(d, EVENTS[first], 0, [first])
+                if h is not None and any(h.get(f) != x for f, x in goldens[first].items()):
                     rec["ok"] = False
-                    rec["diff"] = sorted(set(h) ^ set(goldens[first]))
+                    rec["diff"] = sorted(f for f in goldens[first] if h.get(f) != goldens[first].get(f))
             except BaseException as e:  # noqa
                 rec["ok"] = False
                 rec["error"] = "%s: %s" % (type(e).__name__, str(e)[:300])
@@ -334,7 +343,7 @@ def main(pid, tier):
                     "{0,1,2,4242,random} x cwd {schema dir, /, sibling} x path form {relative, absolute, with ..} x outdir {relative, absolute} x -q; "
                     "non-trivial = history of length >= 2 / any matrix run" % (depth, len(EVENTS)),
                exhaustive=True, bound="history length <= %d over %d events (%d histories)" % (depth, len(EVENTS), expect))
-    return finish(PID, tier, acc, cov, t0, assumptions=["fork() snapshots the interpreter state exactly"], guards=g)
+    return finish(PID, tier, acc, cov, t0, assumptions=["fork() snapshots the interpreter state exactly", "the output directory of a history is modelled by copying the predecessor's directory"], guards=g)
 
 
 def replay(payload):
@@ -347,8 +356,9 @@ def replay(payload):
             write_schemas(d)
             for k, ei in enumerate(r["hist"]):
                 ev = EVENTS[ei]
-                h = do_event(d, ev, k)
-                if h is not None and h != golden(d, ev):
+                h = do_event(d, ev, k, r["hist"][:k + 1])
+                g = golden(d, ev) if h is not None else None
+                if h is not None and any(h.get(f) != x for f, x in g.items()):
                     print("REPRODUCED: after %s the output of %s differs from a fresh process" % ([EVENTS[i] for i in r["hist"][:k]], ev))
                     return 1
         print("NOT REPRODUCED")
